@@ -62,12 +62,34 @@ theorem Bal2.set (s : MSt) (r : Nat) (t' : T) (lg : Ledger) (hb : Bal (s.get r) 
   · rw [if_pos ‹r = 0›] at hb; simp only; omega
   · rw [if_neg ‹¬ r = 0›] at hb; simp only; omega
 
+/-- the two swaps exchange the registers; every other operation leaves the register it is not addressed to alone -/
+def Op.exchanges : Op → Bool
+  | .swap .. | .tswap .. => true
+  | _ => false
+
+/-- per register: the other register's tree is untouched and the ledger balances the addressed one -/
+def PerReg (r : Nat) (s s' : MSt) (lg : Ledger) : Prop :=
+  (r = 0 → s'.t1 = s.t1) ∧ (r ≠ 0 → s'.t0 = s.t0) ∧ Bal (s.get r) (s'.get r) lg
+
+theorem perReg_refl (s : MSt) (r : Nat) : PerReg r s s {} := ⟨fun _ => rfl, fun _ => rfl, Bal.refl _⟩
+
+theorem perReg_set (s : MSt) (r : Nat) (t' : T) (lg : Ledger) (hb : Bal (s.get r) t' lg) : PerReg r s (s.set r t') lg := by
+  refine ⟨?_, ?_, by rw [MSt.get_set]; exact hb⟩
+  · intro h; simp [MSt.set, h]
+  · intro h; simp [MSt.set, h]
+
+theorem perReg_setMode (s : MSt) (r m : Nat) (t' : T) (lg : Ledger) (hb : Bal (s.get r) t' lg) :
+    PerReg r s ((s.set r t').setMode r m) lg := by
+  unfold PerReg MSt.setMode MSt.set MSt.get at *
+  by_cases h : r = 0 <;> simp_all
+
 /-- the statement about one operation -/
 def StepOK (c : Cfg) (s : MSt) (ss : SSt) (op : Op) : Prop :=
   match specCore c ss op with
   | none => stepCore c s op = .bad
   | some (ss', o) =>
-    ∃ s' mo lg, stepCore c s op = .ok (s', mo, lg) ∧ mo.abs (s.get op.reg) (s'.get op.reg) = o ∧ Rel c s' ss' ∧ Bal2 s s' lg
+    ∃ s' mo lg, stepCore c s op = .ok (s', mo, lg) ∧ mo.abs (s.get op.reg) (s'.get op.reg) = o ∧ Rel c s' ss' ∧
+      Bal2 s s' lg ∧ (op.exchanges = false → PerReg op.reg s s' lg)
 
 section single
 variable {c : Cfg} (pv : c.p.Valid) {s : MSt} {ss : SSt} (h : Rel c s ss)
@@ -83,7 +105,7 @@ theorem ins_ok (kind : InsKind) (r k v : Nat) : StepOK c s ss (.ins kind r k v) 
     obtain ⟨res, h1, h2, h3, h4, h5, _, h7⟩ :=
       ins_step _ (c.params_valid pv _) (c.params_sw _) (s.get r) (h.inv r) k (if c.isMap then v else 0)
     rw [h1]
-    refine ⟨_, _, _, rfl, ?_, h.set r _ _ h2 h3, Bal2.set s r _ _ h7⟩
+    refine ⟨_, _, _, rfl, ?_, h.set r _ _ h2 h3, Bal2.set s r _ _ h7, fun _ => perReg_set s r _ _ h7⟩
     simp only [MOut.abs, Op.reg, MSt.get_set, h4, h5]
 
 theorem idx_ok (r k : Nat) : StepOK c s ss (.idx r k) := by
@@ -101,7 +123,7 @@ theorem idx_ok (r k : Nat) : StepOK c s ss (.idx r k) := by
     rw [h5, tree_chain_flatten, h3] at hd
     obtain ⟨e, he, hde⟩ := getElem?_of_rank _ _ h6
     rw [hde]
-    refine ⟨_, _, _, rfl, ?_, h.set r _ _ h2 h3, Bal2.set s r _ _ h7⟩
+    refine ⟨_, _, _, rfl, ?_, h.set r _ _ h2 h3, Bal2.set s r _ _ h7, fun _ => perReg_set s r _ _ h7⟩
     simp only [MOut.abs]
     rw [← hd, hde]; rfl
 
@@ -111,7 +133,7 @@ theorem insr_ok (r : Nat) (es : List Ent) : StepOK c s ss (.insr r es) := by
   simp only [StepOK, specCore, stepCore, doInsr, ← hm, ← hl]
   obtain ⟨t', d, h1, h2, h3, h4⟩ := insMany_step _ (c.params_valid pv _) (c.params_sw _) es (s.get r) {} (h.inv r)
   rw [h1]
-  exact ⟨_, _, _, rfl, rfl, h.set r _ _ h2 h3, Bal2.set s r _ _ (by rw [Ledger.empty_add]; exact h4)⟩
+  exact ⟨_, _, _, rfl, rfl, h.set r _ _ h2 h3, Bal2.set s r _ _ (by rw [Ledger.empty_add]; exact h4), fun _ => perReg_set s r _ _ (by rw [Ledger.empty_add]; exact h4)⟩
 
 theorem rctor_ok (r : Nat) (es : List Ent) : StepOK c s ss (.rctor r es) := by
   have hm := h.mode r
@@ -121,11 +143,11 @@ theorem rctor_ok (r : Nat) (es : List Ent) : StepOK c s ss (.rctor r es) := by
   obtain ⟨t', d, h1, h2, h3, h4⟩ :=
     insMany_step _ (c.params_valid pv _) (c.params_sw _) es {} (clear (s.get r)).2 (treeInv_empty _)
   rw [h1]
-  refine ⟨_, _, _, rfl, rfl, h.set r _ _ h2 (by rw [h3]; rfl), Bal2.set s r _ _ ?_⟩
   have hroot := nodes_of_root (clear (s.get r)).1 {} c3
-  have : Bal (s.get r) {} (clear (s.get r)).2 := by
+  have hb0 : Bal (s.get r) {} (clear (s.get r)).2 := by
     simp only [Bal] at c4 ⊢; rw [hroot.1, hroot.2] at c4; exact c4
-  exact this.trans h4
+  have hb := hb0.trans h4
+  exact ⟨_, _, _, rfl, rfl, h.set r _ _ h2 (by rw [h3]; rfl), Bal2.set s r _ _ hb, fun _ => perReg_set s r _ _ hb⟩
 
 theorem er1_ok (r k : Nat) : StepOK c s ss (.er1 r k) := by
   have hm := h.mode r
@@ -133,7 +155,7 @@ theorem er1_ok (r k : Nat) : StepOK c s ss (.er1 r k) := by
   simp only [StepOK, specCore, stepCore, doEr1, ← hm, ← hl]
   obtain ⟨res, h1, h2, h3, h4⟩ := er1_step _ (c.params_valid pv _) (c.params_sw _) (s.get r) (h.inv r) k
   rw [h1]
-  refine ⟨_, _, _, rfl, ?_, h.set r _ _ h2 (by rw [← h3]), Bal2.set s r _ _ h4⟩
+  refine ⟨_, _, _, rfl, ?_, h.set r _ _ h2 (by rw [← h3]), Bal2.set s r _ _ h4, fun _ => perReg_set s r _ _ h4⟩
   simp only [MOut.abs]; rw [← h3]
 
 theorem era_ok (r k : Nat) : StepOK c s ss (.era r k) := by
@@ -144,7 +166,7 @@ theorem era_ok (r k : Nat) : StepOK c s ss (.era r k) := by
   obtain ⟨t', d, h1, h2, h3, h4⟩ := era_step _ (c.params_valid pv _) (c.params_sw _) (s.get r) (h.inv r) k
     ((s.get r).stats.size + 2) (by omega)
   rw [h1]
-  exact ⟨_, _, _, rfl, rfl, h.set r _ _ h2 h3, Bal2.set s r _ _ h4⟩
+  exact ⟨_, _, _, rfl, rfl, h.set r _ _ h2 h3, Bal2.set s r _ _ h4, fun _ => perReg_set s r _ _ h4⟩
 
 theorem eri_ok (r k : Nat) : StepOK c s ss (.eri r k) := by
   have hm := h.mode r
@@ -158,7 +180,7 @@ theorem eri_ok (r k : Nat) : StepOK c s ss (.eri r k) := by
       eri_step _ (c.params_valid pv _) (c.params_sw _) (s.get r) (h.inv r) k (by omega)
     rw [h1, h2]
     simp only [liftOpt, h3, h5]
-    refine ⟨_, _, _, rfl, ?_, h.set r _ _ h6 h7, Bal2.set s r _ _ h8⟩
+    refine ⟨_, _, _, rfl, ?_, h.set r _ _ h6 h7, Bal2.set s r _ _ h8, fun _ => perReg_set s r _ _ h8⟩
     simp only [MOut.abs, Op.reg, h4]
 
 theorem find_ok (r k : Nat) : StepOK c s ss (.find r k) := by
@@ -167,7 +189,7 @@ theorem find_ok (r k : Nat) : StepOK c s ss (.find r k) := by
   simp only [StepOK, specCore, stepCore, ← hm, ← hl]
   obtain ⟨pos, h1, h2⟩ := find_spec _ (c.params_sw _) (s.get r) (h.inv r) k
   rw [h1]
-  refine ⟨_, _, _, rfl, ?_, h, Bal2.refl s⟩
+  refine ⟨_, _, _, rfl, ?_, h, Bal2.refl s, fun _ => perReg_refl s _⟩
   simp only [MOut.abs, Op.reg, h2, hasKey_eq, lbOf_eq]
 
 theorem lb_ok (r k : Nat) : StepOK c s ss (.lb r k) := by
@@ -176,7 +198,7 @@ theorem lb_ok (r k : Nat) : StepOK c s ss (.lb r k) := by
   simp only [StepOK, specCore, stepCore, ← hm, ← hl]
   obtain ⟨pos, h1, h2⟩ := lowerBound_spec _ (c.params_sw _) (s.get r) (h.inv r) k
   rw [h1]
-  refine ⟨_, _, _, rfl, ?_, h, Bal2.refl s⟩
+  refine ⟨_, _, _, rfl, ?_, h, Bal2.refl s, fun _ => perReg_refl s _⟩
   simp only [MOut.abs, Op.reg, h2, lbOf_eq]
 
 theorem ub_ok (r k : Nat) : StepOK c s ss (.ub r k) := by
@@ -185,7 +207,7 @@ theorem ub_ok (r k : Nat) : StepOK c s ss (.ub r k) := by
   simp only [StepOK, specCore, stepCore, ← hm, ← hl]
   obtain ⟨pos, h1, h2⟩ := upperBound_spec _ (c.params_sw _) (s.get r) (h.inv r) k
   rw [h1]
-  refine ⟨_, _, _, rfl, ?_, h, Bal2.refl s⟩
+  refine ⟨_, _, _, rfl, ?_, h, Bal2.refl s, fun _ => perReg_refl s _⟩
   simp only [MOut.abs, Op.reg, h2, ubOf_eq]
 
 theorem eqr_ok (r k : Nat) : StepOK c s ss (.eqr r k) := by
@@ -195,7 +217,7 @@ theorem eqr_ok (r k : Nat) : StepOK c s ss (.eqr r k) := by
   obtain ⟨pos, h1, h2⟩ := lowerBound_spec _ (c.params_sw _) (s.get r) (h.inv r) k
   obtain ⟨pos', h3, h4⟩ := upperBound_spec _ (c.params_sw _) (s.get r) (h.inv r) k
   rw [h1, h3]
-  refine ⟨_, _, _, rfl, ?_, h, Bal2.refl s⟩
+  refine ⟨_, _, _, rfl, ?_, h, Bal2.refl s, fun _ => perReg_refl s _⟩
   simp only [MOut.abs, Op.reg, h2, h4, lbOf_eq, ubOf_eq]
 
 theorem exists_ok (r k : Nat) : StepOK c s ss (.exists_ r k) := by
@@ -203,7 +225,7 @@ theorem exists_ok (r k : Nat) : StepOK c s ss (.exists_ r k) := by
   have hl := h.list r
   simp only [StepOK, specCore, stepCore, ← hm, ← hl]
   rw [existsKey_spec _ (c.params_sw _) (s.get r) (h.inv r) k]
-  refine ⟨_, _, _, rfl, ?_, h, Bal2.refl s⟩
+  refine ⟨_, _, _, rfl, ?_, h, Bal2.refl s, fun _ => perReg_refl s _⟩
   simp only [MOut.abs, hasKey_eq]
 
 theorem count_ok (r k : Nat) : StepOK c s ss (.count r k) := by
@@ -211,13 +233,13 @@ theorem count_ok (r k : Nat) : StepOK c s ss (.count r k) := by
   have hl := h.list r
   simp only [StepOK, specCore, stepCore, ← hm, ← hl]
   rw [count_spec _ (c.params_valid pv _) (c.params_sw _) (s.get r) (h.inv r) k]
-  exact ⟨_, _, _, rfl, rfl, h, Bal2.refl s⟩
+  exact ⟨_, _, _, rfl, rfl, h, Bal2.refl s, fun _ => perReg_refl s _⟩
 
 theorem size_ok (r : Nat) : StepOK c s ss (.size r) := by
   have hl := h.list r
   have hsz := size_eq_length _ (s.get r) (h.inv r)
   simp only [StepOK, specCore, stepCore, ← hl]
-  refine ⟨_, _, _, rfl, ?_, h, Bal2.refl s⟩
+  refine ⟨_, _, _, rfl, ?_, h, Bal2.refl s, fun _ => perReg_refl s _⟩
   simp only [MOut.abs, hsz]
 
 theorem iter_ok (r m : Nat) : StepOK c s ss (.iter r m) := by
@@ -228,8 +250,8 @@ theorem iter_ok (r m : Nat) : StepOK c s ss (.iter r m) := by
   · simp only [if_neg hm]
     rw [iterOut_spec _ (c.params_valid pv _) (s.get r) (h.inv r) m]
     by_cases hmm : m % 8 = 0 ∨ m % 8 = 2 ∨ m % 8 = 5 ∨ m % 8 = 7
-    · simp only [if_pos hmm]; exact ⟨_, _, _, rfl, rfl, h, Bal2.refl s⟩
-    · simp only [if_neg hmm]; exact ⟨_, _, _, rfl, rfl, h, Bal2.refl s⟩
+    · simp only [if_pos hmm]; exact ⟨_, _, _, rfl, rfl, h, Bal2.refl s, fun _ => perReg_refl s _⟩
+    · simp only [if_neg hmm]; exact ⟨_, _, _, rfl, rfl, h, Bal2.refl s, fun _ => perReg_refl s _⟩
 
 theorem rconv_ok (r k : Nat) : StepOK c s ss (.rconv r k) := by
   have hl := h.list r
@@ -239,10 +261,10 @@ theorem rconv_ok (r k : Nat) : StepOK c s ss (.rconv r k) := by
   · simp only [if_pos hk]
   · simp only [if_neg hk]
     by_cases h0 : k = 0
-    · simp only [if_pos h0]; exact ⟨_, _, _, rfl, rfl, h, Bal2.refl s⟩
+    · simp only [if_pos h0]; exact ⟨_, _, _, rfl, rfl, h, Bal2.refl s, fun _ => perReg_refl s _⟩
     · simp only [if_neg h0]
       rw [rconvOut_spec _ (c.params_valid pv _) (s.get r) (h.inv r) k (by omega) (by omega)]
-      exact ⟨_, _, _, rfl, rfl, h, Bal2.refl s⟩
+      exact ⟨_, _, _, rfl, rfl, h, Bal2.refl s, fun _ => perReg_refl s _⟩
 
 theorem fconv_ok (r k : Nat) : StepOK c s ss (.fconv r k) := by
   have hl := h.list r
@@ -252,15 +274,15 @@ theorem fconv_ok (r k : Nat) : StepOK c s ss (.fconv r k) := by
   · simp only [if_pos hk]
   · simp only [if_neg hk]
     by_cases h0 : k = 0
-    · simp only [if_pos h0]; exact ⟨_, _, _, rfl, rfl, h, Bal2.refl s⟩
+    · simp only [if_pos h0]; exact ⟨_, _, _, rfl, rfl, h, Bal2.refl s, fun _ => perReg_refl s _⟩
     · simp only [if_neg h0]
       rw [fconvOut_spec _ (c.params_valid pv _) (s.get r) (h.inv r) k (by omega) (by omega)]
-      exact ⟨_, _, _, rfl, rfl, h, Bal2.refl s⟩
+      exact ⟨_, _, _, rfl, rfl, h, Bal2.refl s, fun _ => perReg_refl s _⟩
 
 theorem clear_ok (r : Nat) : StepOK c s ss (.clear r) := by
   simp only [StepOK, specCore, stepCore]
   obtain ⟨c1, c2, _, c4⟩ := clear_step _ (s.get r) (h.inv r)
-  exact ⟨_, _, _, rfl, rfl, h.set r _ _ c1 c2, Bal2.set s r _ _ c4⟩
+  exact ⟨_, _, _, rfl, rfl, h.set r _ _ c1 c2, Bal2.set s r _ _ c4, fun _ => perReg_set s r _ _ c4⟩
 
 theorem bulk_ok (r : Nat) (es : List Ent) : StepOK c s ss (.bulk r es) := by
   have hm := h.mode r
@@ -276,7 +298,7 @@ theorem bulk_ok (r : Nat) (es : List Ent) : StepOK c s ss (.bulk r es) := by
     obtain ⟨t', l, h1, h2, h3, h4⟩ :=
       bulk_step _ (c.params_valid pv _) (c.params_sw _) (s.get r) (h.inv r) h0 es hs
     rw [h1]
-    exact ⟨_, _, _, rfl, rfl, h.set r _ _ h2 h3, Bal2.set s r _ _ h4⟩
+    exact ⟨_, _, _, rfl, rfl, h.set r _ _ h2 h3, Bal2.set s r _ _ h4, fun _ => perReg_set s r _ _ h4⟩
 
 theorem cmp_ok (r q : Nat) : StepOK c s ss (.cmp r q) := by
   have hl := h.list r
@@ -284,7 +306,7 @@ theorem cmp_ok (r q : Nat) : StepOK c s ss (.cmp r q) := by
   have hsz := size_eq_length _ (s.get r) (h.inv r)
   have hsq := size_eq_length _ (s.get q) (h.inv q)
   simp only [StepOK, specCore, stepCore, doCmp, ← hl, ← hq, hsz, hsq]
-  exact ⟨_, _, _, rfl, rfl, h, Bal2.refl s⟩
+  exact ⟨_, _, _, rfl, rfl, h, Bal2.refl s, fun _ => perReg_refl s _⟩
 
 theorem copy_ok (r q : Nat) (hr : r ≤ 1) (hq : q ≤ 1) : StepOK c s ss (.copy r q) := by
   simp only [StepOK, specCore, stepCore, doCopy]
@@ -301,49 +323,60 @@ theorem copy_ok (r q : Nat) (hr : r ≤ 1) (hq : q ≤ 1) : StepOK c s ss (.copy
     simp only [Bal] at b0 b1
     obtain rfl | rfl : r = 0 ∨ r = 1 := by omega
     · obtain rfl : q = 1 := by omega
-      simp only [MSt.get, MSt.set, MSt.mode, MSt.setMode, SSt.get, SSt.set, SSt.mode, SSt.setMode, if_true,
+      simp only [PerReg, Op.reg, MSt.get, MSt.set, MSt.mode, MSt.setMode, SSt.get, SSt.set, SSt.mode, SSt.setMode, if_true,
         Nat.one_ne_zero, if_false, e1, g1]
-      refine ⟨⟨h.m1, h.m1, h.inv1, h.inv1, h.l1, h.l1⟩, ?_⟩
-      simp only [Bal2, MSt.leaves, MSt.inners, Ledger.add]
-      simp only [Tree.nLeaves, Tree.nInner] at n0 b0 ⊢; omega
+      refine ⟨⟨h.m1, h.m1, h.inv1, h.inv1, h.l1, h.l1⟩, ?_, fun _ => ⟨by simp, by simp, ?_⟩⟩
+      · simp only [Bal2, MSt.leaves, MSt.inners, Ledger.add]
+        simp only [Tree.nLeaves, Tree.nInner] at n0 b0 ⊢; omega
+      · simp only [Bal, Ledger.add]
+        simp only [Tree.nLeaves, Tree.nInner] at n0 b0 ⊢; omega
     · obtain rfl : q = 0 := by omega
-      simp only [MSt.get, MSt.set, MSt.mode, MSt.setMode, SSt.get, SSt.set, SSt.mode, SSt.setMode, if_true,
+      simp only [PerReg, Op.reg, MSt.get, MSt.set, MSt.mode, MSt.setMode, SSt.get, SSt.set, SSt.mode, SSt.setMode, if_true,
         Nat.one_ne_zero, if_false, e0, g0]
-      refine ⟨⟨h.m0, h.m0, h.inv0, h.inv0, h.l0, h.l0⟩, ?_⟩
-      simp only [Bal2, MSt.leaves, MSt.inners, Ledger.add]
-      simp only [Tree.nLeaves, Tree.nInner] at n1 b1 ⊢; omega
+      refine ⟨⟨h.m0, h.m0, h.inv0, h.inv0, h.l0, h.l0⟩, ?_, fun _ => ⟨by simp, by simp, ?_⟩⟩
+      · simp only [Bal2, MSt.leaves, MSt.inners, Ledger.add]
+        simp only [Tree.nLeaves, Tree.nInner] at n1 b1 ⊢; omega
+      · simp only [Bal, Ledger.add]
+        simp only [Tree.nLeaves, Tree.nInner] at n1 b1 ⊢; omega
 
 theorem assign_ok (r q : Nat) (hr : r ≤ 1) (hq : q ≤ 1) : StepOK c s ss (.assign r q) := by
   simp only [StepOK, specCore, stepCore, doAssign]
   by_cases hb : q = r
-  · simp only [if_pos hb]; exact ⟨_, _, _, rfl, rfl, h, Bal2.refl s⟩
+  · simp only [if_pos hb]; exact ⟨_, _, _, rfl, rfl, h, Bal2.refl s, fun _ => perReg_refl s _⟩
   · simp only [if_neg hb]
     refine ⟨_, _, _, rfl, rfl, ?_⟩
     obtain ⟨e01, g01⟩ := assign_eq _ _ (c.params_valid pv _) s.t0 s.t1 h.inv0 h.inv1
     obtain ⟨e10, g10⟩ := assign_eq _ _ (c.params_valid pv _) s.t1 s.t0 h.inv1 h.inv0
     obtain rfl | rfl : r = 0 ∨ r = 1 := by omega
     · obtain rfl : q = 1 := by omega
-      simp only [MSt.get, MSt.set, MSt.mode, MSt.setMode, SSt.get, SSt.set, SSt.mode, SSt.setMode, if_true,
+      simp only [PerReg, Op.reg, MSt.get, MSt.set, MSt.mode, MSt.setMode, SSt.get, SSt.set, SSt.mode, SSt.setMode, if_true,
         Nat.one_ne_zero, if_false, e01, g01]
-      refine ⟨⟨h.m1, h.m1, h.inv1, h.inv1, h.l1, h.l1⟩, ?_⟩
-      simp only [Bal2, MSt.leaves, MSt.inners]; omega
+      refine ⟨⟨h.m1, h.m1, h.inv1, h.inv1, h.l1, h.l1⟩, ?_, fun _ => ⟨by simp, by simp, ?_⟩⟩
+      · simp only [Bal2, MSt.leaves, MSt.inners]; omega
+      · simp only [Bal]; omega
     · obtain rfl : q = 0 := by omega
-      simp only [MSt.get, MSt.set, MSt.mode, MSt.setMode, SSt.get, SSt.set, SSt.mode, SSt.setMode, if_true,
+      simp only [PerReg, Op.reg, MSt.get, MSt.set, MSt.mode, MSt.setMode, SSt.get, SSt.set, SSt.mode, SSt.setMode, if_true,
         Nat.one_ne_zero, if_false, e10, g10]
-      refine ⟨⟨h.m0, h.m0, h.inv0, h.inv0, h.l0, h.l0⟩, ?_⟩
-      simp only [Bal2, MSt.leaves, MSt.inners]; omega
+      refine ⟨⟨h.m0, h.m0, h.inv0, h.inv0, h.l0, h.l0⟩, ?_, fun _ => ⟨by simp, by simp, ?_⟩⟩
+      · simp only [Bal2, MSt.leaves, MSt.inners]; omega
+      · simp only [Bal]; omega
 
 theorem tswap_ok (r q : Nat) (hr : r ≤ 1) (hq : q ≤ 1) : StepOK c s ss (.tswap r q) := by
   simp only [StepOK, specCore, stepCore, doTswap]
-  refine ⟨_, _, _, rfl, rfl, ?_⟩
-  rcases (by omega : r = 0 ∨ r = 1) with rfl | rfl <;> rcases (by omega : q = 0 ∨ q = 1) with rfl | rfl
+  refine ⟨_, _, _, rfl, rfl, ?_, ?_, fun hx => by simp [Op.exchanges] at hx⟩
+  all_goals
+    rcases (by omega : r = 0 ∨ r = 1) with rfl | rfl <;> rcases (by omega : q = 0 ∨ q = 1) with rfl | rfl
   all_goals
     simp only [MSt.get, MSt.set, MSt.mode, MSt.setMode, SSt.get, SSt.set, SSt.mode, SSt.setMode, if_true,
       Nat.one_ne_zero, if_false]
-  · exact ⟨⟨h.m0, h.m1, h.inv0, h.inv1, h.l0, h.l1⟩, by simp [Bal2, MSt.leaves, MSt.inners]⟩
-  · exact ⟨⟨h.m1, h.m0, h.inv1, h.inv0, h.l1, h.l0⟩, by simp only [Bal2, MSt.leaves, MSt.inners]; omega⟩
-  · exact ⟨⟨h.m1, h.m0, h.inv1, h.inv0, h.l1, h.l0⟩, by simp only [Bal2, MSt.leaves, MSt.inners]; omega⟩
-  · exact ⟨⟨h.m0, h.m1, h.inv0, h.inv1, h.l0, h.l1⟩, by simp [Bal2, MSt.leaves, MSt.inners]⟩
+  · exact ⟨h.m0, h.m1, h.inv0, h.inv1, h.l0, h.l1⟩
+  · exact ⟨h.m1, h.m0, h.inv1, h.inv0, h.l1, h.l0⟩
+  · exact ⟨h.m1, h.m0, h.inv1, h.inv0, h.l1, h.l0⟩
+  · exact ⟨h.m0, h.m1, h.inv0, h.inv1, h.l0, h.l1⟩
+  · simp [Bal2, MSt.leaves, MSt.inners]
+  · simp only [Bal2, MSt.leaves, MSt.inners]; omega
+  · simp only [Bal2, MSt.leaves, MSt.inners]; omega
+  · simp [Bal2, MSt.leaves, MSt.inners]
 
 theorem swap_ok (r q : Nat) (hr : r ≤ 1) (hq : q ≤ 1) : StepOK c s ss (.swap r q) := by
   simp only [StepOK, specCore, stepCore, doSwap]
@@ -363,11 +396,11 @@ theorem swap_ok (r q : Nat) (hr : r ≤ 1) (hq : q ≤ 1) : StepOK c s ss (.swap
     refine ⟨_, _, _, rfl, rfl, ?_⟩
     rcases (by omega : r = 0 ∨ r = 1) with rfl | rfl
     · simp only [MSt.get, MSt.set, if_true, e0, g0, e00, g00]
-      refine ⟨⟨h.m0, h.m1, h.inv0, h.inv1, h.l0, h.l1⟩, ?_⟩
+      refine ⟨⟨h.m0, h.m1, h.inv0, h.inv1, h.l0, h.l1⟩, ?_, fun hx => by simp [Op.exchanges] at hx⟩
       simp only [Bal2, MSt.leaves, MSt.inners, Ledger.add]
       simp only [Tree.nLeaves, Tree.nInner] at n0 b0 ⊢; omega
     · simp only [MSt.get, MSt.set, Nat.one_ne_zero, if_false, e1, g1, e11, g11]
-      refine ⟨⟨h.m0, h.m1, h.inv0, h.inv1, h.l0, h.l1⟩, ?_⟩
+      refine ⟨⟨h.m0, h.m1, h.inv0, h.inv1, h.l0, h.l1⟩, ?_, fun hx => by simp [Op.exchanges] at hx⟩
       simp only [Bal2, MSt.leaves, MSt.inners, Ledger.add]
       simp only [Tree.nLeaves, Tree.nInner] at n1 b1 ⊢; omega
   · simp only [if_neg hb]
@@ -376,13 +409,13 @@ theorem swap_ok (r q : Nat) (hr : r ≤ 1) (hq : q ≤ 1) : StepOK c s ss (.swap
     · obtain rfl : q = 1 := by omega
       simp only [MSt.get, MSt.set, MSt.mode, MSt.setMode, SSt.get, SSt.set, SSt.mode, SSt.setMode, if_true,
         Nat.one_ne_zero, if_false, e0, g0, e01, g01, e10, g10]
-      refine ⟨⟨h.m1, h.m0, h.inv1, h.inv0, h.l1, h.l0⟩, ?_⟩
+      refine ⟨⟨h.m1, h.m0, h.inv1, h.inv0, h.l1, h.l0⟩, ?_, fun hx => by simp [Op.exchanges] at hx⟩
       simp only [Bal2, MSt.leaves, MSt.inners, Ledger.add]
       simp only [Tree.nLeaves, Tree.nInner] at n0 b0 ⊢; omega
     · obtain rfl : q = 0 := by omega
       simp only [MSt.get, MSt.set, MSt.mode, MSt.setMode, SSt.get, SSt.set, SSt.mode, SSt.setMode, if_true,
         Nat.one_ne_zero, if_false, e1, g1, e10, g10, e01, g01]
-      refine ⟨⟨h.m1, h.m0, h.inv1, h.inv0, h.l1, h.l0⟩, ?_⟩
+      refine ⟨⟨h.m1, h.m0, h.inv1, h.inv0, h.l1, h.l0⟩, ?_, fun hx => by simp [Op.exchanges] at hx⟩
       simp only [Bal2, MSt.leaves, MSt.inners, Ledger.add]
       simp only [Tree.nLeaves, Tree.nInner] at n1 b1 ⊢; omega
 
@@ -397,7 +430,7 @@ theorem stepOp_refines (c : Cfg) (pv : c.p.Valid) (s : MSt) (ss : SSt) (h : Rel 
     | none => stepOp c s op = .bad
     | some (ss', o) =>
       ∃ s' mo lg, stepOp c s op = .ok (s', mo, lg) ∧ mo.abs (s.get op.reg) (s'.get op.reg) = o ∧
-        Rel c s' ss' ∧ Bal2 s s' lg := by
+        Rel c s' ss' ∧ Bal2 s s' lg ∧ (op.exchanges = false → PerReg op.reg s s' lg) := by
   unfold specStep stepOp
   cases hw : op.wf with
   | false => simp
@@ -461,7 +494,7 @@ theorem run_refines (c : Cfg) (pv : c.p.Valid) :
       obtain ⟨ss1, o⟩ := res
       rw [hsp] at hstep
       simp only at hstep
-      obtain ⟨s1, mo, l1, g1, g2, g3, g4⟩ := hstep
+      obtain ⟨s1, mo, l1, g1, g2, g3, g4, _⟩ := hstep
       obtain ⟨s', lg, h1, h2, h3⟩ := ih s1 ss1 g3
       refine ⟨s', l1.add lg, ?_, ?_, g4.trans h3⟩
       · simp only [runOps, g1, h1, specRun, hsp, Option.map_some, g2]
